@@ -332,10 +332,11 @@ _reg("C18", c18.run, translator=("T1", "T2"), module="NirVerif.Properties.C18Dep
                 "`assert type in __all_ir; return globals()[type]`.",
      level_note="Lean kernel + T1/T2; CPython keyword binding and `assert` (no -O) are modelled; nested/graph-level strictness "
                 "(class-specific from_dict of Input/Output/Flatten/NIRGraph) is covered by the correspondence run.")
-_reg("C19", c19.run, translator=("T1", "T9"), module="NirVerif.Properties.C19Generated",
+_reg("C19", c19.run, translator=("T1", "T9", "T10"), module="NirVerif.Properties.C19Generated",
      theorems=["NirVerif.C19.neuron_IF", "NirVerif.C19.neuron_LI", "NirVerif.C19.neuron_LIF", "NirVerif.C19.weight_rank",
                "NirVerif.C19.padding_string", "NirVerif.C19.padding_bytes", "NirVerif.C19.cuba_w_in",
-               "NirVerif.C19.shape_fields_generated", "NirVerif.C19.neuron_generated"],
+               "NirVerif.C19.shape_fields_generated", "NirVerif.C19.neuron_generated", "NirVerif.C19.guards_generated",
+               "NirVerif.C19.weight_rank_generated", "NirVerif.C19.padding_generated"],
      rule="All shape tuples over 8 shapes of rank 0..3 for IF/LI (quick: sampled for LIF), CubaLIF with nine forms of "
           "w_in and mismatching parameter shapes, Affine/Linear weight ranks 0..5, ~25 (thorough ~100) padding strings "
           "incl. case/whitespace/unicode look-alikes and bytes; expected acceptance known by construction.",
